@@ -1008,6 +1008,52 @@ pub fn run_c12(ctx: &Ctx) -> Report {
     rep.add_space("E4.pairs", json!({"values_in_R": all.len(), "from_mutation_histories": by_route[0], "from_parsing": by_route[1], "from_from_parts": by_route[2],
         "subset": n, "ordered_pairs": n * n, "equal_pairs": st.local.counters[0],
         "selection": "values sorted by model value, evenly spaced (deterministic); all ordered pairs of the subset"}), &st);
+    // long lists (count ladder, DESIGN 0.8): for every list dimension and every n the ascending list
+    // of n elements and the same list with its first / middle / last element replaced by an element
+    // that is not in it -- all ordered pairs of these values, so that two long values differ in one
+    // far position only, are a prefix of each other, or are equal (a comparison / hash that packs,
+    // truncates or stops early beyond some count lives here)
+    {
+        let n_max = if ctx.quick() { 24 } else { 40 };
+        let mut cv: BTreeMap<String, (Locale, MLocale, String)> = BTreeMap::new();
+        let mut rejected = 0u64;
+        for dim in super::counts::DIMS {
+            for n in 0..=n_max {
+                let base: Vec<usize> = (0..n).collect();
+                let mut lists = vec![base.clone()];
+                if n >= 1 {
+                    for k in [0, n / 2, n - 1] {
+                        let mut x = base.clone();
+                        x[k] = n_max + 1 + k % 3;
+                        lists.push(x);
+                    }
+                }
+                for idx in lists {
+                    let t = super::counts::text_of(dim, &idx);
+                    match (inputs::parse_locale(t.as_bytes()), rm::locale_zone(t.as_bytes()).0) {
+                        (Out::Ok(loc), Zone::MustAccept(m)) | (Out::Ok(loc), Zone::Either(m)) => {
+                            let s = loc.to_string();
+                            cv.insert(format!("{:?}", loc), (loc, m, s));
+                        }
+                        _ => rejected += 1,
+                    }
+                }
+            }
+        }
+        let cvv: Vec<(Locale, MLocale, String)> = cv.into_values().collect();
+        let cn = cvv.len() as u64;
+        let stc = par_range(ctx, "E4.count_pairs", cn * cn, 1 << 12, &|idx, l| {
+            let (i, j) = ((idx / cn) as usize, (idx % cn) as usize);
+            check_value_pair(&cvv[i], &cvv[j], idx, &coll);
+            l.nontrivial += (i != j) as u64;
+        });
+        rep.distinct_nontrivial += stc.local.nontrivial;
+        rep.add_space("E4.count_pairs", json!({"values": cn, "ordered_pairs": cn * cn, "n_max": n_max, "texts_not_accepted_by_both_parser_and_oracle": rejected,
+            "kind": "for every list dimension and every n <= n_max: the ascending list of n elements and the list with its first / middle / last element replaced; all ordered pairs"}), &stc);
+        if cn < 100 {
+            rep.engine_failures.push("vacuity guard: count-ladder value set of C12 is nearly empty".into());
+        }
+    }
     // distinct language identifiers of R: all ordered pairs (the field-wise order clause)
     let mut ids: BTreeMap<String, (Locale, MLocale, String)> = BTreeMap::new();
     for v in &all {
